@@ -385,6 +385,108 @@ def gen_bool_seq(rng, n, regs=REG_BOOL):
     return out
 
 
+def _pinched(rng, box):
+    """a polygon one of whose vertices lies on (or one lattice unit off) a non-adjacent edge of the same polygon"""
+    n = rng.range(4, 7)
+    p = polys.rand_polygon(rng, n, box) if rng.chance(2, 3) else [(rng.range(-box, box), rng.range(-box, box)) for _ in range(n)]
+    e = rng.below(n)
+    P, Q = p[e], p[(e + 1) % n]
+    b = rng.choice([2, 3, 3, 4, 5, 7])
+    a = rng.range(1, b - 1)
+    R = (P[0] + (Q[0] - P[0]) * a // b + rng.choice([0, 0, 0, 1, -1]), P[1] + (Q[1] - P[1]) * a // b + rng.choice([0, 0, 0, 1, -1]))
+    pos = (e + rng.range(2, max(2, n - 1))) % n
+    q = list(p)
+    q.insert(pos + 1 if pos != e else (e + 3) % (n + 1), R)
+    return q
+
+
+def _zigzag(rng, box):
+    m = rng.choice([4, 5, 5, 6, 7])
+    ang = (rng.range(-box, box), rng.range(-box, box))
+    L = max(1, abs(ang[0]), abs(ang[1]))
+    cx, cy = rng.range(0, box), rng.range(0, box)
+    p = []
+    for k in range(m):
+        sg = 1 if k % 2 == 0 else -1
+        t, w = rng.range(box // 3, box), rng.range(-8, 8)
+        p.append((cx + sg * ang[0] * t // L - ang[1] * w // L + rng.range(-2, 2), cy + sg * ang[1] * t // L + ang[0] * w // L + rng.range(-2, 2)))
+    return p
+
+
+def gen_touch(rng, n):
+    """small-coordinate polygons whose vertices lie on / within a fraction of a unit of their own or other paths' edges
+    (pinched polygons, slivers, zigzags of nearly parallel edges, random self-intersecting n-gons): after rounding the
+    output rings keep micro self-intersections and are split in CleanCollinear / FixSelfIntersects / DoSplitOp, which
+    appends to outrec_list_ while the result builders walk it.  Up to 20 further small polygons all around, so that
+    OutRecs precede and follow the split one and the list is at every capacity 1, 2, 4, 8, 16 when it grows.  Through
+    Clipper64 / ClipperD objects, the free functions and the C exports, Paths and PolyTree results; the D entry points get
+    coordinates with one or two decimals more than the precision (0..2), so that rounding moves vertices onto edges."""
+    out = []
+    for i in range(n):
+        box = rng.choice([12, 30, 100, 100, 300, 1000])
+        core = []
+        for _ in range(rng.choice([1, 1, 1, 2, 3])):
+            k = rng.below(6)
+            if k <= 1:
+                core.append(_pinched(rng, box))
+            elif k == 2:
+                core.append(_zigzag(rng, box))
+            elif k == 3:
+                core.append([(rng.range(0, box), rng.range(0, box)) for _ in range(rng.choice([5, 5, 6, 8, 11, 14]))])
+            elif k == 4:      # a vertex of one polygon on an edge of another
+                a = polys.rand_polygon(rng, rng.range(3, 6), box)
+                P, Q = a[0], a[1]
+                R = ((P[0] + Q[0]) // 2 + rng.choice([0, 0, 1]), (P[1] + Q[1]) // 2 + rng.choice([0, 0, -1]))
+                core += [a, [R, (R[0] + rng.range(-box, box), R[1] + rng.range(-box, box)), (R[0] + rng.range(-box, box), R[1] + rng.range(-box, box))]]
+            else:
+                core.append([(27, 12), (24, 11), (75, 31), (30, 18), (95, 43)] if rng.chance(1, 2) else
+                            [(0, 0), (-4000, 6000), (1497, 998), (-1000, 7000), (4000, 7500), (3000, 2000)])
+        m = max(1, maxabs(core))
+        pads = []
+        npad = rng.choice([0, 0, 1, 1, 2, 3, 3, 4, 5, 6, 7, 8, 9, 11, 13, 15, 16, 17, 19, 20])
+        s0 = max(2, m // 8)
+        for j in range(npad):
+            # small squares / triangles on a ring around the core (all four sides: before and after it in the sweep)
+            gx, gy = rng.range(-3, 3), rng.range(-3, 3)
+            if abs(gx) < 2 and abs(gy) < 2:
+                gx = rng.choice([-3, -2, 2, 3])
+            x0, y0 = gx * (m + 4 * s0) + rng.range(-s0, s0), gy * (m + 4 * s0) + rng.range(-s0, s0) + j * 3 * s0 * rng.choice([0, 1])
+            pads.append(_sq(x0, y0, s0) if rng.chance(2, 3) else [(x0, y0), (x0 + s0, y0), (x0, y0 + s0)])
+        S = core + pads
+        rng.shuffle(S)
+        C = []
+        if rng.chance(1, 4):
+            C = [polys.rand_polygon(rng, rng.range(3, 5), box)]
+        ct = rng.choice([2, 2, 2, 1, 3, 4]) if C else rng.choice([2, 2, 2, 4, 3])
+        fr = rng.choice([1, 0, 1, 0, 2, 3])
+        pc, rs = rng.below(2), rng.below(2)
+        mode = rng.choice([0, 0, 2, 1, 3, 4, 6, 5])
+        fam = 'touch%d' % min(20, npad)
+        sel = rng.below(12)
+        if sel < 6:            # the double API (objects, free functions, exports)
+            prec = rng.choice([2, 2, 1, 0, 2])
+            extra = rng.choice([1, 2, 2])
+            div = 10 ** (prec + extra)
+            Sd, Cd = fmt_pathsd(S, div), fmt_pathsd(C, div)
+            if sel < 3:
+                out.append(case('BD %d %d %d %d %d %d %d %s %s %s' % (prec, ct, fr, pc, rs, mode, rng.choice([0, 0, 0, 1]), Sd, '0', Cd), 'small', True, fam))
+            elif sel < 5:
+                fn = rng.choice([0, 1, 3, 4, 4, 2, 5, 6])
+                out.append(case('FD %d %d %d %d %s %s' % (fn, ct, fr, prec, Sd, Cd), 'small', True, fam))
+            else:
+                out.append(case('%s %d %d %d %d %d 0 0 %s %s %s' % (rng.choice(['XBD', 'XBD', 'XBTD']), prec, ct, fr, pc, rs, Sd, '0', Cd), 'small', True, fam))
+        else:
+            Si, Ci = fmt_paths(S), fmt_paths(C)
+            if sel < 9:
+                out.append(case('B64 %d %d %d %d %d %d %s %s %s' % (ct, fr, pc, rs, mode, rng.choice([0, 0, 0, 1, 3]), Si, '0', Ci), 'small', True, fam))
+            elif sel < 11:
+                fn = rng.choice([0, 1, 3, 4, 4, 2, 5, 6])
+                out.append(case('F64 %d %d %d %s %s' % (fn, ct, fr, Si, Ci), 'small', True, fam))
+            else:
+                out.append(case('%s %d %d %d %d 0 0 %s %s %s' % (rng.choice(['XB64', 'XBT64']), ct, fr, pc, rs, Si, '0', Ci), 'small', True, fam))
+    return out
+
+
 def gen_bool_d(rng, n):
     """ClipperD / PathsD functions / export D: integer lattice shapes divided by 10^prec; scaled magnitudes stay <= 2^62 except
     for a few deliberately out-of-range cases (documented range error -> Clipper2Exception / error code)."""
@@ -697,6 +799,11 @@ FIXED = [
     ('XMISC', 'tiny', True, 'misc'),
     ('OFF 2 0 0 0 2 3 1 0 0 1 0', 'tiny', True, 'callback-empty-path'),
     ('OFF 2 0 0 0 2 3 1 0 2 1 1 5 5', 'tiny', True, 'callback-one-point'),
+    # a polygon pinched at a vertex that lies on its own edge: the output ring is split in FixSelfIntersects (ClipperD, paths result)
+    ('FD 4 2 1 2 1 6 0.0 0.0 -40.0 60.0 14.97 9.98 -10.0 70.0 40.0 75.0 30.0 20.0 0', 'small', True, 'touch0'),
+    ('FD 4 2 0 2 1 6 0.0 0.0 -40.0 60.0 14.97 9.98 -10.0 70.0 40.0 75.0 30.0 20.0 0', 'small', True, 'touch0'),
+    ('BD 2 2 1 0 0 2 0 1 6 0.0 0.0 -40.0 60.0 14.97 9.98 -10.0 70.0 40.0 75.0 30.0 20.0 0 0', 'small', True, 'touch0'),
+    ('F64 4 2 1 1 6 0 0 -4000 6000 1497 998 -1000 7000 4000 7500 3000 2000 0', 'small', True, 'touch0'),
     # RamerDouglasPeucker with epsilon = NaN on a collinear path
     ('RDP nan 1 5 0 0 1 0 2 0 3 0 4 0', 'tiny', True, 'rdp-nan'),
     ('RDPD nan 1 5 0 0 1 0 2 0 3 0 4 0', 'tiny', True, 'rdp-nan'),
@@ -749,6 +856,7 @@ def gen_all(rng, scale=1.0):
     out = fixed_cases()
     out += gen_bool(rng.fork(1), n(2600))
     out += gen_bool_seq(rng.fork(9), n(1200))
+    out += gen_touch(rng.fork(10), n(2500))
     out += gen_bool_d(rng.fork(2), n(700))
     out += gen_offset(rng.fork(3), n(1600))
     out += gen_rect(rng.fork(4), n(900))
